@@ -200,6 +200,34 @@ def _verus_reader_unary(prop: str, fns=("read_unary", "skip_bits"), lemmas=True)
 BRU_LEMMAS = ("lemma_sbit_word", "lemma_wbit_bb", "lemma_lz_bb", "lemma_tz_bb", "lemma_shl_bits", "lemma_shr_bits")
 
 
+RB_FNS = {"read_bits": "read_bits", "peek_bits": "peek_bits", "skip_bits_after_peek": "skip_bits_after_peek", "refill": "refill",
+          "bit_pos": "bit_pos", "set_bit_pos": "set_bit_pos"}
+RB_LEMMAS = ("lemma_bit_of", "lemma_small", "lemma_cast64_bits", "lemma_up_bits", "lemma_shr64_bits", "lemma_concat64", "lemma_concat64_1", "lemma_be_top",
+             "lemma_be_consume", "lemma_be_acc_word", "lemma_be_acc_final", "lemma_be_result", "lemma_be_refill", "lemma_be_peek", "lemma_or_bits_bb",
+             "lemma_be_seek", "lemma_mask_bb", "lemma_one_shl_pos", "lemma_or_shl64", "lemma_lowbits64", "lemma_le_low", "lemma_le_cast", "lemma_le_consume",
+             "lemma_le_acc_word", "lemma_le_acc_final", "lemma_le_result", "lemma_le_refill", "lemma_le_peek", "lemma_le_seek")
+
+
+def _verus_reader_bits(prop: str, fns, lemmas=True) -> List[Obl]:
+    """BufBitReader::{read_bits, peek_bits, skip_bits_after_peek, refill} and BitSeek::{bit_pos, set_bit_pos} in Verus, one unit per word type."""
+    out = []
+    pl = prop.lower()
+    for w in RWORDS:
+        n = int(w[1:])
+        bb = BBTYPE[w]
+        unit = f"reader_bits@W={w};N={n};BB={bb};M={2 * n};LZINC={'lz128.inc' if bb == 'u128' else 'empty.inc'}"
+        for el, E in ENDIANS:
+            for fn in fns:
+                out.append(Obl(id=f"{pl}.verus.{fn}.{E}.{w}", prop=prop, engine="verus", target=f"{unit}:{fn}_{el}",
+                               fns=[f"BufBitReader<{E},_<{w}>>::{fn}"],
+                               note="real text, WR::Word / BB<WR> instantiated; every Inv_R state (incl. more than one word buffered), every argument, "
+                                    "streams shorter than 2^64 bits; result, position, Inv_R' and error clauses as in DESIGN 2.1"))
+        if lemmas:
+            for l in RB_LEMMAS:
+                out.append(Obl(id=f"{pl}.verus.reader_bits.{l}.{w}", prop=prop, engine="verus", target=f"{unit}:{l}", fns=[]))
+    return out
+
+
 def _verus_bitreader_unary(prop: str, lemmas=True) -> List[Obl]:
     out = []
     pl = prop.lower()
@@ -214,7 +242,7 @@ def _verus_bitreader_unary(prop: str, lemmas=True) -> List[Obl]:
 
 
 def _c02() -> List[Obl]:
-    out = _verus_reader_unary("C02") + _verus_bitreader_unary("C02")
+    out = _verus_reader_unary("C02") + _verus_bitreader_unary("C02") + _verus_reader_bits("C02", ["read_bits", "peek_bits", "skip_bits_after_peek", "refill"])
     out += _reader("C02", r"c02|confirm", ["new", "read_bits", "peek_bits", "skip_bits_after_peek", "read_unary.K2", "read_unary.K4",
                                  "skip_bits", "skip_bits.K2", "skip_bits.K4", "clone", "confirm"])
     # zero extension of the memory backend (contract of MemWordReader<_,_,true>)
@@ -225,7 +253,8 @@ def _c02() -> List[Obl]:
 
 
 def _c07() -> List[Obl]:
-    out = _verus_reader_unary("C07", lemmas=False) + _verus_bitreader_unary("C07", lemmas=False)
+    out = (_verus_reader_unary("C07", lemmas=False) + _verus_bitreader_unary("C07", lemmas=False)
+           + _verus_reader_bits("C07", ["bit_pos", "set_bit_pos", "read_bits", "peek_bits", "skip_bits_after_peek"], lemmas=False))
     out += _reader("C07", r"c07|advance|positioned|move|confirm: position", ["read_bits", "peek_bits", "skip_bits_after_peek", "read_unary.K2",
                                                           "skip_bits", "skip_bits.K2", "bit_pos", "set_bit_pos", "confirm"])
     # the seek contracts of the backends the readers are used with
@@ -241,7 +270,8 @@ def _c07() -> List[Obl]:
 
 
 def _c09_impl() -> List[Obl]:
-    out = _verus_reader_unary("C09", lemmas=False) + _verus_bitreader_unary("C09", lemmas=False)
+    out = (_verus_reader_unary("C09", lemmas=False) + _verus_bitreader_unary("C09", lemmas=False)
+           + _verus_reader_bits("C09", ["read_bits", "peek_bits", "refill"], lemmas=False))
     out += _reader("C09", r"c09", ["read_bits", "peek_bits", "read_unary.K2", "read_unary.K4", "skip_bits.K2"])
     for w in ["u8", "u64"]:
         out.append(Obl(id=f"c09.strict_backend.{w}", prop="C09", engine="kani", target=f"obl_c13::{w}_::reader_strict_k3", kind="bounded",
@@ -561,7 +591,8 @@ def _verus_reader_copy_to(prop: str) -> List[Obl]:
                        note="discharges the rotate_left axiom of the Verus unit"))
     out.append(Obl(id=f"{pl}.std_spec.ord_min", prop=prop, engine="kani", target="obl_stdspec::std_spec_ord_min_u64", fns=["Ord::min"],
                    note="discharges the Ord::min rewrite of the Verus unit"))
-    # the read_bits contract clause the unit relies on
+    out += _verus_reader_bits(prop, ["read_bits"], lemmas=False)
+    # the read_bits contract clause the unit relies on (Kani cross-check)
     for el, E in ENDIANS:
         for w in RWORDS:
             out.append(Obl(id=f"{pl}.read_bits_contract.{E}.{w}", prop=prop, engine="kani", target=f"obl_reader::{el}::{w}_::c02_read_bits",
